@@ -1,8 +1,90 @@
 import CnlDriver.CS
-/-! `C18` driver table (stub). -/
-namespace Cnl.Drv
-open Cnl
+import CnlModel.Bits
+import CnlSpec.Bits
+/-! `C18` table: bit and digit-counting utilities.
 
-def checkC18 (_toks : List String) (_res : String) : Option Verdict := none
+`C18 <function> <cfg> <T> <x> [<s>|<radix>] => <result>`; `cfg` = `ig` (GCC, intrinsics), `ic` (Clang,
+intrinsics), `gen` (generic definitions only).  The model's answer is compared verbatim with the
+implementation's; the spec oracle (`CnlSpec.Bits`) judges the implementation's result on its own.
+`C18 sweep32 <cfg> <lo> <hi> <calls> => <mismatches>` is the summary line of the supplementary in-harness
+search of the thorough tier (not a model comparison: the expected count is 0). -/
+namespace Cnl.Drv
+open Cnl Cnl.Bits
+
+def parseCfg : String → Option Cfg
+  | "ig" => some ⟨true, false⟩
+  | "ic" => some ⟨true, true⟩
+  | "gen" => some ⟨false, false⟩
+  | _ => none
+
+private def showI (n : Int) : String := "i32:" ++ toString n
+private def showU (w : Nat) (n : Nat) : String := "u" ++ toString w ++ ":" ++ toString n
+private def specI (want : Int) (res : String) : Option Bool := some (res == showI want)
+
+def checkC18 (toks : List String) (res : String) : Option Verdict :=
+  match toks with
+  | ["sweep32", _, _, _, _] => some { model := "0", spec := some (res == "0"), branch := "sweep32", nontrivial := true }
+  | [fn, cfg, ty, xs] => do
+    let c ← parseCfg cfg; let T ← parseIntTy ty; let v ← xs.toInt?
+    let w := T.bits
+    if !T.inRange v || w == 0 then none
+    let x := v.toNat
+    let tag := fn ++ "/" ++ cfg ++ "/" ++ ty
+    let cnt (m : Res Int) (want : Int) (cls : String := "") : Option Verdict :=
+      some { model := showRes showI m, spec := specI want res, branch := tag, cls := if res == showI want then "" else cls }
+    if T.signed then
+      match fn with
+      | "countl_rsb" => cnt (countlRsb c w v) (Spec.Bits.countlRsb w v)
+      | "countl_rb" => cnt (countlRb c T v) (Spec.Bits.countlRsb w v)
+      | "countr_used" => cnt (countrUsed c T v) (Spec.Bits.valueBits v)
+      | "used_digits" => cnt (usedDigits T v 2) (Spec.Bits.valueBits v)
+      | "leading_bits" => cnt (leadingBits T v) (Spec.Bits.leadingBits w true v)
+      | "trailing_bits" => cnt (AsFound.trailingBits c T v) (Spec.Bits.trailingBits w v)
+      | _ => none
+    else
+      match fn with
+      | "countl_zero" => cnt (countlZero c w x) (Spec.Bits.countlZero w x)
+      | "countl_one" => cnt (countlOne c w x) (Spec.Bits.countlOne w x)
+      | "countr_zero" => cnt (AsFound.countrZero c w x) (Spec.Bits.countrZero w x) "C18.ctz_zero"
+      | "countr_one" => cnt (AsFound.countrOne c w x) (Spec.Bits.countrOne w x) "C18.ctz_zero"
+      | "popcount" => cnt (popcount c w x) (Spec.Bits.popcount w x)
+      | "log2p1" => cnt (log2p1 c w x) (Spec.Bits.bitLength x)
+      | "ispow2" =>
+        some { model := showRes showBool (ispow2 w x), spec := some (res == showBool (Spec.Bits.isPow2 x)), branch := tag }
+      | "floor2" =>
+        some { model := showRes (showU w) (floor2 c w x), spec := some (res == showU w (Spec.Bits.floor2 x)), branch := tag }
+      | "ceil2" =>
+        let m := showRes (showU w) (ceil2 c w x)
+        match Spec.Bits.ceil2 w x with
+        | some p => some { model := m, spec := some (res == showU w p), branch := tag }
+        | none => some { model := m, spec := none, branch := tag ++ "/out-of-contract", nontrivial := false }
+      | "countl_rb" => cnt (countlRb c T v) (Spec.Bits.countlZero w x)
+      | "countr_used" => cnt (countrUsed c T v) (Spec.Bits.bitLength x)
+      | "used_digits" => cnt (usedDigits T v 2) (Spec.Bits.bitLength x)
+      | "leading_bits" => cnt (leadingBits T v) (Spec.Bits.leadingBits w false v)
+      | "trailing_bits" => cnt (AsFound.trailingBits c T v) (Spec.Bits.trailingBits w v)
+      | _ => none
+  | [fn, cfg, ty, xs, ss] => do
+    let _c ← parseCfg cfg; let T ← parseIntTy ty; let v ← xs.toInt?; let s ← ss.toNat?
+    let w := T.bits
+    if !T.inRange v || w == 0 then none
+    let x := v.toNat
+    let tag := fn ++ "/" ++ cfg ++ "/" ++ ty
+    match fn with
+    | "rotl" =>
+      if T.signed then none else
+      some { model := showRes (showU w) (AsFound.rotl w x s), spec := some (res == showU w (Spec.Bits.rotl w x s)),
+             cls := if res == showU w (Spec.Bits.rotl w x s) then "" else "C18.rot_full_width_shift",
+             branch := tag ++ (if s % w == 0 then "/multiple-of-width" else "") }
+    | "rotr" =>
+      if T.signed then none else
+      some { model := showRes (showU w) (AsFound.rotr w x s), spec := some (res == showU w (Spec.Bits.rotr w x s)),
+             cls := if res == showU w (Spec.Bits.rotr w x s) then "" else "C18.rot_full_width_shift",
+             branch := tag ++ (if s % w == 0 then "/multiple-of-width" else "") }
+    | "used_digits_r" =>
+      let n := (if v < 0 then -v - 1 else v).toNat
+      some { model := showRes showI (usedDigits T v s), spec := specI (Spec.Bits.radixDigits s n (w + 1)) res, branch := tag }
+    | _ => none
+  | _ => none
 
 end Cnl.Drv
